@@ -1,3 +1,4 @@
 R BHS.Http
 X Http.respond_gen Http.respond Http.respond_fixed Http.respond_current Http.current_fixes Http.no_fixes Http.all_fixes
 X Http.check Http.defect_site Http.mkenv Http.fix_on Http.status_of
+X Http.finish Http.errw
